@@ -75,7 +75,7 @@ def check_cases(cases: list[dict], rep: Report, known: dict) -> None:
             call(e.at, wire.build_point(q))
         if c.get("entry") == "number" and len(e._variable_names) <= 1:
             names = sorted(e._variable_names)
-            t = p._coordinates.get(names[0], 1) if names else 1
+            t = wire.coords(p).get(names[0], 1) if names else 1
             impl = call(e.at, t)
             suffix = f"evalnum {c['e']} {wire.num(t)}"
         else:
